@@ -103,10 +103,17 @@ func (dmx *Demuxer) NextPacket() (p *Packet, err error) {
 
 	// Create packet buffer if not exists
 	if dmx.packetBuffer == nil {
-		if dmx.packetBuffer, err = newPacketBuffer(dmx.r, dmx.optPacketSize, dmx.optPacketSkipper); err != nil {
+		// The packet buffer is kept only if it could be created: a failed packet size detection is retried
+		var pb *packetBuffer
+		if pb, err = newPacketBuffer(dmx.r, dmx.optPacketSize, dmx.optPacketSkipper); err != nil {
+			if errors.Is(err, ErrNoMorePackets) {
+				err = ErrNoMorePackets
+				return
+			}
 			err = fmt.Errorf("astits: creating packet buffer failed: %w", err)
 			return
 		}
+		dmx.packetBuffer = pb
 	}
 
 	// Fetch next packet from buffer
